@@ -508,7 +508,7 @@ def _build_cbd(rng, cls, big):
     elif cls == "cbd_float32_collapse":
         # metrics distinct in float64 but equal (or mis-ordered) once rounded to float32; rank order != row order
         metric = str(rng.choice(["score", "geom1", "subtomo_id", "geom3", "geom4"]))
-        fmode = str(rng.choice(["close_floats", "big_integers", "float32_extremes"])) if metric != "subtomo_id" else "big_integers"
+        fmode = str(rng.choice(["close_floats", "big_integers", "float32_extremes"], p=[0.4, 0.4, 0.2])) if metric != "subtomo_id" else "big_integers"
         rank = rng.permutation(n).astype(np.float64)
         if fmode == "close_floats":
             v0 = float(rng.choice([1.0, -1.0])) * float(10 ** rng.uniform(-1, 3))
@@ -545,6 +545,9 @@ def _build_cbd(rng, cls, big):
                 if ccol not in ("x", "y", "z", "shift_x", "shift_y", "shift_z", "score", "geom1", "subtomo_id", feature):
                     df[ccol] = df[ccol].to_numpy()[0]
         info["sites"] = int(nsite)
+        if rng.random() < 0.5:                 # ... and the co-located particles' metrics differ only beyond float32 precision
+            df[metric] = float(rng.choice([0.61234567, -3.25, 812.5])) * (1.0 + rng.permutation(n) * float(10 ** rng.uniform(-9, -7.5)))
+            info["metric_spacing"] = "sub-float32"
         P = None
     if P is not None:
         _split_positions(rng, df, P, shift_scale=float(rng.choice([0.5, 3.0, 10.0])))
